@@ -170,6 +170,8 @@ def _compile_flavour(root, flav):
         objs = [os.path.join(obj, "h_%s.o" % s[:-2]) for s in srcs]
         if not all(os.path.exists(o) for o in objs):
             continue
+        if name == "h_echsd":
+            objs.append(os.path.join(obj, "bin_echsd_logger.o"))
         links.append(["gcc"] + san + ["-rdynamic", "-o", os.path.join(obj, name)] + objs + [lib]
                      + ([LIBEV] if ev else []) + LDLIBS)
     with ThreadPoolExecutor(16) as ex:
